@@ -21,6 +21,7 @@ ASSUMPTIONS = ["random(): the environment answer is any vector of ints in [1, 99
                "float spacing compared at 1e-12; interval ends compared exactly, as the statement says"]
 CLS = {"int": int, "float": float, "Fraction": F}
 SHIFTS = (F(1), F(-1, 2), F(7, 3))
+FAR_SHIFT = F(2 * 10 ** 6)  # magnitude / spacing > 1e6
 SCALES = (F(2), F(1, 2), F(7, 3))
 
 
@@ -230,7 +231,7 @@ def run_case(case, res):
                 return
             res.nontriv((what,))
 
-        for a in SHIFTS:
+        for a in SHIFTS + ((FAR_SHIFT,) if not isfloat else ()):
             kv = lib.KnotVector(list(vals))
             o = lib.outcome(kv.shift, L(a))
             res.state(("shift", name, a))
@@ -277,8 +278,8 @@ def run_case(case, res):
         c0 = lib.mk_curve(U, P)
         base = {j: f0[:, j](prm) for j in range(p + 1)}
         cbase = c0(prm)
-        for s in SCALES:
-            for a in SHIFTS[:2]:
+        for s, a in [(s, a) for s in SCALES for a in SHIFTS[:2]] + [(F(1), FAR_SHIFT), (F(1, 1000), FAR_SHIFT / 1000)]:
+            if True:
                 res.state((U, s, a))
                 kv = lib.mk_kv(U)
                 kv.scale(s)
